@@ -15,7 +15,7 @@
 //	r                         POST the reset handler            -> r 204
 //	qbad / rbad               wrong method on the handlers      -> 405, nothing changes
 //	conc <seed> <q|r>         8 goroutines of traffic racing queries (and resets); oracle only; ends with a reset
-//	race <A|B>                race-detector run of cmd/c13race (oracle only)
+//	race <A|B|P|Q>              race-detector run of cmd/c13race (oracle only)
 //	urlstr <s> <h> <p> <q> <f> url.URL.String() against the model's urlString
 package c13
 
@@ -1085,7 +1085,7 @@ func (e *ex) Do(op string) core.Result {
 		}
 		return e.concurrent(seed, f[2] == "r")
 	case "race":
-		if len(f) != 2 || (f[1] != "A" && f[1] != "B") {
+		if len(f) != 2 || raceModes[f[1]] == "" {
 			return core.Result{Impl: "bad-op"}
 		}
 		return raceOp(f[1])
